@@ -226,16 +226,16 @@ def execute(case, stats, log):
             kinds.add(kind)
             y = out.get("p") if ev["ev"] == "persist" else out.get("y")
             _same_meta(src, y, i, kind, var)
-            log.append([i, kind, var, y.name, chunks_json(y.chunks)])
+            log.append([i, kind, var, m.nm(y.name), chunks_json(y.chunks)])
         elif ev["ev"] == "optimize":
             kinds.add(kind)
             y = out["y"]
             if y.dtype != src.dtype or tuple(map(_n, y.shape)) != tuple(map(_n, src.shape)):
                 raise Violation(ID, "metadata-not-kept",
                                 f"event {i}: x.optimize() changed shape/dtype: {src.shape}/{src.dtype} -> {y.shape}/{y.dtype}", step=i)
-            log.append([i, kind, var, y.name])
+            log.append([i, kind, var, m.nm(y.name)])
         elif ev["ev"] == "build":
-            log.append([i, "build", var, out["x"].name])
+            log.append([i, "build", var, m.nm(out["x"].name)])
         else:
             log.append([i, ev["ev"], var])
     stats["entry_kinds"] = len(kinds)
